@@ -265,7 +265,7 @@ static int battery_run(const char *ctx, int depth)
 		static const int zp[] = { PAT_TEXT, PAT_XS, PAT_ZERO, PAT_P258 };
 		static uint8_t *in, *out, *back, *lvlbuf;
 		if (!in) {
-			in = malloc(70000); out = malloc(80000); back = malloc(70000 + 64); lvlbuf = malloc(ISAL_DEF_LVL3_DEFAULT);
+			in = malloc(70000); out = malloc(160000); back = malloc(70000 + 64); lvlbuf = malloc(ISAL_DEF_LVL3_DEFAULT);
 		}
 		for (unsigned li = 0; li < sizeof zl / sizeof zl[0]; li++)
 			for (unsigned pi = 0; pi < (depth > 1 ? 4 : 2); pi++)
@@ -288,7 +288,7 @@ static int battery_run(const char *ctx, int depth)
 							s.level_buf_size = lsz[level];
 							s.gzip_flag = IGZIP_GZIP;
 							s.next_in = in; s.avail_in = len; s.end_of_stream = 1;
-							s.next_out = out; s.avail_out = 80000;
+							s.next_out = out; s.avail_out = 160000; /* only the one-shot API has an output bound */
 							r = api == 0 ? isal_deflate_stateless(&s) : isal_deflate(&s);
 						} else {
 							BAT_FAIL(api ? "isal_deflate_body" : "isal_deflate_body", "fault at %s compressing len=%d level=%d api=%d", v_sym(v_fault_rip), len, level, api);
@@ -322,7 +322,7 @@ static int battery_run(const char *ctx, int depth)
 							if (ir != 0 || st.total_out != (uint32_t)len || memcmp(back, in, len) || st.block_state != ISAL_BLOCK_FINISH)
 								BAT_FAIL("decode_huffman_code_block_stateless", "inflate ret=%d total_out=%u len=%d state=%d", ir, st.total_out, len, st.block_state);
 							/* zlib encoder, level 6, raw */
-							uLongf cl = 80000;
+							uLongf cl = 160000;
 							if (compress2(out, &cl, in, len, 6) == Z_OK) {
 								if (V_TRY()) {
 									isal_inflate_init(&st);
